@@ -460,9 +460,15 @@ class _Cells:
 
     def __init__(self, m):
         import numpy as np
+        import scipy.sparse as sp
         d = _dense(m)
         self.d = d
-        self.items = [(int(q), int(r), d[r, q]) for r in range(d.shape[0]) for q in range(d.shape[1]) if d[r, q] != 0]
+        if sp.issparse(m):
+            c = m.tocoo()
+            # stored entries, explicit zeros (distance-0 neighbours) included
+            self.items = [(int(q), int(r), v) for r, q, v in zip(c.row, c.col, c.data)]
+        else:
+            self.items = [(int(q), int(r), d[r, q]) for r in range(d.shape[0]) for q in range(d.shape[1]) if d[r, q] != 0]
 
     def __iter__(self):
         return iter(self.items)
@@ -530,6 +536,10 @@ def search_output(trip, output_type, seqs, seqs2):
 
 
 def bag_equal(a, b):
+    if isinstance(a, _Cells) or isinstance(b, _Cells):
+        cells, other = (a, b) if isinstance(a, _Cells) else (b, a)
+        lo = list(other)
+        return all(t in cells for t in lo) and all(any(x[:2] == y[:2] and close(x[2], y[2]) for y in lo) for x in cells)
     la, lb = list(a), list(b)
     return all(any(x[:2] == y[:2] and close(x[2], y[2]) for y in lb) for x in la) and \
         all(any(x[:2] == y[:2] and close(x[2], y[2]) for y in la) for x in lb)
